@@ -12,11 +12,12 @@ import (
 )
 
 // TxSpec is one transaction of a history.
-//   Mode "update": db.Update, every op is attempted, fn returns nil (Commit is attempted)
-//   Mode "view":   db.View
-//   Mode "fnerr":  db.Update whose fn returns an error after the ops (=> rollback)
-//   Mode "rollback": Begin(true) ... Rollback()
-//   Mode "manual": Begin(true) ... Commit() (and Rollback() if Commit fails)
+//
+//	Mode "update": db.Update, every op is attempted, fn returns nil (Commit is attempted)
+//	Mode "view":   db.View
+//	Mode "fnerr":  db.Update whose fn returns an error after the ops (=> rollback)
+//	Mode "rollback": Begin(true) ... Rollback()
+//	Mode "manual": Begin(true) ... Commit() (and Rollback() if Commit fails)
 type TxSpec struct {
 	Mode string `json:"mode"`
 	Ops  []Op   `json:"ops"`
